@@ -144,7 +144,12 @@ def C04_link_language : Prop :=
   ∀ (evs : List Ev), wellFormed {} [] evs = true → langOk {} [] evs = true
 
 /-- It is false of the model for inputs the statement does not exclude: (i) the same lane NAME registered twice
-(two lane ids share the frames' name: unlinking one closes the key while the other is still linked); … -/
+(two lane ids share the frames' name: unlinking one closes the key while the other is still linked). The real
+`WriteTaskState` shows the same behaviour (harness replay `lane 6 0; lane 6 0; attach 0; ev 0 0 val:01; done 0 ok;
+done 0 ok; link 0 6; done 0 ok; unlink 0 6; done 0 ok; ev 0 0 val:02; done 0 ok` ⇒ frames `6:linked 6:ev:01
+6:linked 6:unl:closed 6:ev:02`, monitor `event-outside-link`): `LaneRegistry::add_endpoint` accepts a name twice
+(`id_for` then answers the LAST id — the model's `idFor` the first, so model and code differ on such inputs);
+duplicate names are rejected above the runtime (`AgentInitError::DuplicateLane` in `swimos_agent`), not by it; … -/
 theorem C04_link_language_fails : ¬ C04_link_language := by
   intro h
   have := h [.lane 5 false, .lane 5 false, .attach 0, .event 1 (some 0) (.value [1]), .done 0 true, .done 0 true,
